@@ -207,9 +207,10 @@ def check_c11(ex, idx, op, obs, C):
     for path, e in got.items():
         if e.get("language") != want[path]:
             ex.add(violation("C11", "language_of_entry", "%s: language %r, model %r" % (path, e.get("language"), want[path]), idx))
-        real = O.md5_file(w.p(path))
-        if e.get("checksum") != real:
-            ex.add(violation("C11", "checksum_of_entry", "%s: checksum %r, md5 of bytes %r" % (path, e.get("checksum"), real), idx))
+        real = O.checksums_of(read_bytes(w.p(path)))
+        if e.get("checksum") not in real:
+            ex.add(violation("C11", "checksum_of_entry", "%s: checksum %r is no standard digest (md5/sha1/sha256/sha512/blake2b) of the file's bytes"
+                             % (path, e.get("checksum")), idx))
     # keys exactly once is implied by JSON object + raw text count
     if ex.recorder:
         bad = [p for p in obs.get("analysed_paths", []) if p not in want]
